@@ -205,7 +205,8 @@ pub fn run(ctx: &mut Ctx) {
         let pg = PathGen::new(&doc);
         for _ in 0..3 {
             let path = if rng.chance(5, 6) { pg.guided_path(&mut rng, &cfg, &doc) } else { pg.path(&mut rng, &cfg) };
-            let text = refpath::render(&path, &refpath::PLAIN, &mut rng);
+            let style = if rng.chance(1, 4) { refpath::RStyle { spacing: rng.bool(), kwcase: false, quoting: true, esc: true } } else { refpath::PLAIN };
+            let text = refpath::render(&path, &style, &mut rng);
             check(ctx, &doc, &path, &text);
             ctx.sample(|| format!("{} on {}", text, doc.show()));
         }
